@@ -1175,6 +1175,102 @@ def rule_r9(chk, prog):
                  nontrivial=False)
 
 
+# -------------------------------------------------------------------- R10
+def rule_r10(chk, prog, cg):
+    chk.rule('C04.R10', 'profiler activations do not nest (cProfile refuses '
+             'a second activation: "ValueError: Another profiling tool is '
+             'already active" since Python 3.12): a Profiler entered in the '
+             'main process inside ddsmt_main\'s own is inert, a forked '
+             'worker stops the inherited one first')
+    du = prog.mod('debug_utils')
+    cd = du.cls('Profiler')
+    init = du.func('Profiler.__init__')
+    where = 'debug_utils.Profiler.__init__'
+    # with-sites
+    sites = []
+    for m in prog.pkg_modules():
+        if 'tests' in m.rel():
+            continue
+        for w in ast.walk(m.tree):
+            if isinstance(w, ast.With):
+                for it in w.items:
+                    c = it.context_expr
+                    if isinstance(c, ast.Call) and (call_name(
+                            c) or '').split('.')[-1] == 'Profiler':
+                        fn = _fn(w)
+                        sites.append((m, fn, w, c))
+    chk.floor('C04.R10', 'with Profiler(...) sites', len(sites), 2)
+    mains = [s_ for s_ in sites if s_[3].args or s_[3].keywords]
+    others = [s_ for s_ in sites if not (s_[3].args or s_[3].keywords)]
+    # which of the plain sites can execute in the main process, below the
+    # main site?  (direct calls only: pool edges run elsewhere)
+    nested_main, nested_fork = [], []
+    for (m0, f0, w0, c0) in mains:
+        root = (m0.name, f0._qualname)
+        same, _ = cg.reachable([root], lambda e: e.kind not in ('pool', ))
+        anyp, _ = cg.reachable([root], lambda e: True)
+        for (m1, f1, w1, c1) in others:
+            k = (m1.name, f1._qualname)
+            if k in same:
+                nested_main.append((m1, f1, w1))
+            if k in anyp:
+                nested_fork.append((m1, f1, w1))
+    ps = params_of(init)
+    flag = ps[1] if len(ps) > 1 else None
+    # branch of __init__ for the main process
+    main_asg, work_asg, work_body = [], [], []
+    for st in ast.walk(init):
+        if isinstance(st, ast.If) and 'parent_process()' in unparse(st.test):
+            t = unparse(st.test).replace(' ', '')
+            main_first = t.endswith('isNone') and 'not' not in t
+            mb, wb = (st.body, st.orelse) if main_first else (st.orelse,
+                                                               st.body)
+            for blk, acc in ((mb, main_asg), (wb, work_asg)):
+                for x in blk:
+                    for y in ast.walk(x):
+                        if isinstance(y, ast.Assign) and any(
+                                unparse(t_) == f'{ps[0]}.enabled'
+                                for t_ in y.targets):
+                            acc.append(y)
+            work_body = wb
+    if not main_asg:
+        raise AnalysisError('C04.R10: Profiler.__init__: assignment of '
+                            '"enabled" for the main process not found')
+    if nested_main:
+        for a in main_asg:
+            names = {x.id for x in ast.walk(a.value)
+                     if isinstance(x, ast.Name)}
+            ok = flag is not None and names == {flag}
+            chk.check('C04.R10', where, a, ok,
+                      f'in the main process every Profiler is active '
+                      f'("{unparse(a)}"), also the one of '
+                      f'{nested_main[0][0].name}.'
+                      f'{nested_main[0][1]._qualname}, which runs inside '
+                      'ddsmt_main\'s "with Profiler(True)" when tasks are '
+                      'processed sequentially: cProfile is enabled twice, '
+                      '--profile ends in a traceback (and the inner '
+                      '__exit__ switches the main profile off)',
+                      loc=du.loc(a), nontrivial=True)
+    if nested_fork:
+        stops = [c for x in work_body for c in ast.walk(x)
+                 if isinstance(c, ast.Call) and isinstance(
+                     c.func, ast.Attribute) and c.func.attr == 'disable']
+        chk.check('C04.R10', where, 'a forked worker stops the inherited '
+                  'profiler', bool(stops),
+                  'the pool is created while the main process is being '
+                  'profiled, so a forked worker inherits the active '
+                  'profiler; its own "with Profiler()" ('
+                  f'{nested_fork[0][0].name}.{nested_fork[0][1]._qualname}) '
+                  'enables cProfile again without stopping the inherited '
+                  'one first: every task fails with ValueError under '
+                  '--profile', loc=du.loc(init), nontrivial=True)
+    chk.instance('C04.R10', 'package', f'{len(nested_main)} plain site(s) '
+                 f'reachable in the main process below the main site, '
+                 f'{len(nested_fork)} via the pool', True,
+                 'call graph reachability from the profiled region',
+                 nontrivial=False)
+
+
 def run(tier):
     prog = Program()
     chk = Check(
@@ -1213,6 +1309,7 @@ def run(tier):
     chk.guard(rule_r7, chk, prog)
     chk.guard(rule_r8, chk, prog)
     chk.guard(rule_r9, chk, prog)
+    chk.guard(rule_r10, chk, prog, cg)
     # an interrupt must reach main()'s handler (status 1): shared with C06.R3
     from . import c06
     sub = Check('C06', 'other', tier, [], [])
